@@ -28,6 +28,7 @@ PAIRS = [  # (quote, base)
     (("WETH", 18), ("WBTC", 8)),
     (("USDT", 6), ("WETH", 18)),
     (("WETH", 18), ("UNI", 18)),
+    (("WETH", 18), ("STETH", 18)),  # a parity pair: equal decimals, price near 1, so ticks of both signs occur in either orientation
 ]
 FEES = (0.05, 0.3, 1)
 
@@ -54,7 +55,8 @@ def generate(seed: int, tier: str = "quick") -> dict:
     nbars = rw.choice([3, 5, 8, 12, 20] if tier == "quick" else [3, 5, 8, 12, 20, 40, 80])
     n = nbars * k
     start = pd.Timestamp("2023-08-13 00:00:00") + pd.Timedelta(minutes=k * rw.randint(0, 200))
-    mw = U.gen_uni_market(rw, "uni0", n, quote, base, quote[0], fee=fee)
+    parity = base[0] == "STETH"
+    mw = U.gen_uni_market(rw, "uni0", n, quote, base, quote[0], fee=fee, base_price=rw.uniform(0.97, 1.03) if parity else None)
     # world A: token0 = quote.  safe ticks: never on a usable tick, never near a rounding midpoint
     mw["closeTick"] = [_safe_tick(t, sp) for t in mw["closeTick"]]
     # keep pool liquidity positive (a zero-liquidity bar is C08's business)
@@ -89,6 +91,9 @@ def generate(seed: int, tier: str = "quick") -> dict:
         where = rp.choice(["below", "in", "in", "above"])  # where the current price sits relative to the range
 
         def rng_ticks(min_gap=0):
+            if parity and min_gap == 0 and rp.random() < 0.5:  # symmetric about tick 0: the mirror has the very same tick numbers
+                j = rp.randint(1, 12) * sp  # (never for the estimate-based helpers, which need the price well inside or outside)
+                return -j, j
             w = rp.randint(1, 12) * sp
             if where == "in":
                 lo = (ct // sp) * sp - rp.randint(min_gap, 6) * sp
